@@ -12,10 +12,13 @@ CONSTANTS BaseIds,    \* which base lines (indices of Bases)
           LitToks,    \* look-alikes that may be put after "--"
           MaxLit,
           Behs,       \* handler behaviours: "ok", "code", "raise"
-          Streams     \* which of the two streams support ANSI: "none", "both", "out"
+          Streams,    \* which of the two streams support ANSI: "none", "both", "out", "err"
+          Rounds,     \* 1: one run;  2: a second line is run on the SAME application object
+          SecondIds   \* base lines of the second run
 
-VARIABLES line, beh, streams, phase, s
-mvars == <<line, beh, streams, phase, s>>
+VARIABLES line, beh, streams, phase, s, round, prev
+mvars == <<line, beh, streams, phase, s, round, prev>>
+NoPrev == [has |-> FALSE, line |-> <<>>, beh |-> "ok", streams |-> "none", obs |-> ObsOf(S0(<<>>, "ok", "none"))]
 
 N(t) == [k |-> "name", t |-> <<t>>]
 P(t) == [k |-> "pos", t |-> <<t>>]
@@ -43,7 +46,10 @@ Bases == <<
   <<N("pkg"), O(<<"-ov">>), O(<<"-f">>), P("x")>>,                   \* 16
   <<N("grp")>>,                                                      \* 17  a container without handler: only help / version work
   <<N("lazy"), P("a")>>,                                             \* 18  handler built by a factory
-  <<N("grp"), N("one"), P("z")>>                                     \* 19
+  <<N("grp"), N("one"), P("z")>>,                                    \* 19
+  <<N("hub")>>,                                                      \* 20  sub-commands named like the switches
+  <<N("hub"), P("a")>>,                                              \* 21
+  <<N("hub"), P("a"), DD, L("b")>>                                   \* 22
 >>
 
 InsertAt(l, p, u) == SubSeq(l, 1, p) \o <<u>> \o SubSeq(l, p + 1, Len(l))
@@ -52,24 +58,31 @@ NSwLit(l) == Cardinality({i \in 1..Len(l) : SwLit(l[i])})
 
 Init == /\ \E b \in BaseIds : line = Bases[b]
         /\ beh \in Behs /\ streams \in Streams
-        /\ phase = "build" /\ s = S0(<<>>, "ok", "none")
+        /\ phase = "build" /\ s = S0(<<>>, "ok", "none") /\ round = 1 /\ prev = NoPrev
 
 InsertSw == /\ phase = "build" /\ NSw(line) < MaxSw
             /\ \E tok \in Toks : \E p \in NNames(line)..(DDIndex(line) - 1) :
                  LET l2 == InsertAt(line, p, Sw(tok)) IN BareVOK(l2) /\ line' = l2
-            /\ UNCHANGED <<beh, streams, phase, s>>
+            /\ UNCHANGED <<beh, streams, phase, s, round, prev>>
 InsertLit == /\ phase = "build" /\ NSwLit(line) < MaxLit /\ DDIndex(line) <= Len(line)
              /\ \E tok \in LitToks : \E p \in DDIndex(line)..Len(line) : line' = InsertAt(line, p, L(tok))
-             /\ UNCHANGED <<beh, streams, phase, s>>
+             /\ UNCHANGED <<beh, streams, phase, s, round, prev>>
 Go == /\ phase = "build" /\ phase' = "run" /\ s' = S0(line, beh, streams)
-      /\ UNCHANGED <<line, beh, streams>>
+      /\ UNCHANGED <<line, beh, streams, round, prev>>
 RunStep == /\ phase = "run" /\ s.pc # "done" /\ s' = Stage(s)
-           /\ UNCHANGED <<line, beh, streams, phase>>
-Next == InsertSw \/ InsertLit \/ Go \/ RunStep
+           /\ UNCHANGED <<line, beh, streams, phase, round, prev>>
+\* the application object is used again: another line, possibly another handler behaviour and other streams.
+\* Nothing of the first run is kept - the model of the second run is the same S0 / Stage as for a fresh application.
+Again == /\ phase = "run" /\ s.pc = "done" /\ round < Rounds /\ round' = round + 1
+         /\ prev' = [has |-> TRUE, line |-> line, beh |-> beh, streams |-> streams, obs |-> ObsOf(s)]
+         /\ \E b \in SecondIds : line' = Bases[b]
+         /\ beh' \in Behs /\ streams' \in Streams /\ phase' = "build" /\ s' = S0(<<>>, "ok", "none")
+Next == InsertSw \/ InsertLit \/ Go \/ RunStep \/ Again
 Spec == Init /\ [][Next]_mvars
 
 \* ------------------------------------------------------------------ the property on the model's own runs
 Fin == phase = "run" /\ s.pc = "done"
+Last == Fin /\ round = Rounds
 O9 == ObsOf(s)
 H_inscope == phase = "build" => InScope(line)
 P_quiet == Fin => PQuiet(line, O9)
@@ -79,15 +92,17 @@ P_ansi == Fin => PAnsi(line, O9)
 P_nointeraction == Fin => PNoInteraction(line, O9)
 P_help == Fin => PHelp(line, O9)
 P_version == Fin => PVersion(line, O9)
+P_command == Fin => PCommand(line, O9)
 \* relational: against a second run of the line without the look-alikes
 P_afterdd == Fin => PAfterDD(line, O9, ObsOf(RunAll(S0(StripLits(line), beh, streams))))
 A_runall == Fin => s = RunAll(S0(line, beh, streams))
 
 \* ------------------------------------------------------------------ emission
 SetSeq(S) == [k \in 1..Cardinality(S) |-> k]      \* the tag sets are initial segments 1..n
-Emit == Fin => PrintT(ToJson([units |-> line, beh |-> beh, streams |-> streams,
-                              exp |-> [status |-> O9.status, calls |-> O9.calls,
-                                       outTags |-> SetSeq(O9.outTags), errTags |-> SetSeq(O9.errTags),
-                                       outEsc |-> O9.outEsc, errEsc |-> O9.errEsc, io |-> O9.io, page |-> O9.page,
-                                       answer |-> O9.answer, consumed |-> O9.consumed, args |-> O9.args, built |-> O9.built]]))
+ObsJ(o) == [status |-> o.status, calls |-> o.calls, outTags |-> SetSeq(o.outTags), errTags |-> SetSeq(o.errTags),
+            outEsc |-> o.outEsc, errEsc |-> o.errEsc, io |-> o.io, page |-> o.page, answer |-> o.answer,
+            answer2 |-> o.answer2, consumed |-> o.consumed, args |-> o.args, built |-> o.built, argsSame |-> o.argsSame]
+Emit == Last => PrintT(ToJson([units |-> line, beh |-> beh, streams |-> streams, exp |-> ObsJ(O9),
+                               prev |-> [has |-> prev.has, units |-> prev.line, beh |-> prev.beh, streams |-> prev.streams,
+                                         exp |-> ObsJ(prev.obs)]]))
 =============================================================================
